@@ -14,8 +14,10 @@ using namespace c06;
 const char* property_id() { return "C06"; }
 unsigned case_timeout_s() { return 1800; }
 
-enum Fam { F_CPC, F_CPC_UNION, F_N };
-static const char* FAM_NAME[] = {"cpc", "cpc_union"};
+// cpc_union_mixed: input A of lg_k+2 over keys [0, 0.7n) and input B of lg_k over keys [0.3n, n) (40% of the keys are in
+// both) into a union of lg_k; the order alternates with the trial (finer input first / last).
+enum Fam { F_CPC, F_CPC_UNION, F_CPC_UNION_MIXED, F_N };
+static const char* FAM_NAME[] = {"cpc", "cpc_union", "cpc_union_mixed"};
 typedef std::allocator<uint8_t> AL;
 
 static std::vector<Cell> build_cells(bool thorough) {
@@ -25,11 +27,14 @@ static std::vector<Cell> build_cells(bool thorough) {
   if (!thorough) cfgs = {{4, 300, NMULTS - 1}, {6, 300, NMULTS - 1}, {9, 200, NMULTS - 1}, {11, 200, NMULTS - 3}};
   else cfgs = {{4, 3000, NMULTS - 1}, {5, 3000, NMULTS - 1}, {6, 3000, NMULTS - 1}, {7, 3000, NMULTS - 1}, {8, 3000, NMULTS - 1}, {9, 3000, NMULTS - 1},
                {10, 2000, NMULTS - 1}, {11, 1500, NMULTS - 1}, {12, 1000, NMULTS - 1}, {13, 800, NMULTS - 2}, {14, 600, NMULTS - 3}};
+  std::vector<Cfg> thin;
+  if (!thorough) thin = {{6, 300, NMULTS - 1}, {9, 200, NMULTS - 2}};
+  else thin = {{5, 3000, NMULTS - 1}, {8, 3000, NMULTS - 1}, {11, 1500, NMULTS - 1}};
   for (int f = 0; f < F_N; ++f)
-    for (auto& c : cfgs)
+    for (auto& c : (f == F_CPC_UNION_MIXED ? thin : cfgs))
       for (int mi = 0; mi <= c.max_mi; ++mi) {
         Cell x; x.fam = f; x.lg_k = c.lg_k; x.mi = mi; x.trials = c.trials; x.n = cardinality(c.lg_k, mi);
-        x.cost = static_cast<double>(x.n) * x.trials * (f == F_CPC_UNION ? 1.3 : 1.0) + 5000.0 * x.trials;
+        x.cost = static_cast<double>(x.n) * x.trials * (f >= F_CPC_UNION ? 1.4 : 1.0) + 5000.0 * x.trials;
         cells.push_back(x);
       }
   order_cells(cells);
@@ -85,24 +90,24 @@ void run_case(uint64_t idx, Rng& r) {
       if (small) check_window(y.c.est, n, cell.lg_k, "cpc_icon|small-range|icon-estimate-outside-accuracy-window", ctx);
       icon.push_back(y);
     } else {
-      const uint64_t a_end = n - n * 2 / 5, b_begin = n * 2 / 5;
-      cpc_sketch a(cell.lg_k), b(cell.lg_k);
+      const bool mixed = cell.fam == F_CPC_UNION_MIXED;
+      const uint64_t a_end = mixed ? n - n * 3 / 10 : n - n * 2 / 5, b_begin = mixed ? n * 3 / 10 : n * 2 / 5;
+      cpc_sketch a(static_cast<uint8_t>(cell.lg_k + (mixed ? 2 : 0))), b(cell.lg_k);
       for (uint64_t i = 0; i < a_end; ++i) a.update(key(i));
       for (uint64_t i = b_begin; i < n; ++i) b.update(key(i));
       cpc_union u(cell.lg_k);
-      u.update(a);
-      u.update(b);
+      if (mixed && (t & 1)) { u.update(b); u.update(a); } else { u.update(a); u.update(b); }
       const cpc_sketch res = u.get_result();
       Trial x; x.c = read_chain(res); check_chain(x.c, fam, ctx); x.exact_class = small;
-      { const cpc_sketch res2 = u.get_result(); VF_CHECK(same_chain(read_chain(res2), x.c), "cpc_union|get_result|second-result-differs-from-first", ctx); }
-      VF_CHECK(x.c.est == res.get_icon_estimate(), "cpc_union|result-estimate-is-not-icon", ctx);
-      if (small) check_window(x.c.est, n, cell.lg_k, "cpc_union|small-range|estimate-outside-accuracy-window", ctx);
+      { const cpc_sketch res2 = u.get_result(); VF_CHECK(same_chain(read_chain(res2), x.c), fam + "|get_result|second-result-differs-from-first", ctx); }
+      VF_CHECK(x.c.est == res.get_icon_estimate(), fam + "|result-estimate-is-not-icon", ctx);
+      if (small) check_window(x.c.est, n, cell.lg_k, fam + "|small-range|estimate-outside-accuracy-window", ctx);
       tr.push_back(x);
     }
   }
   const std::string ctx = "family=" + fam + " lg_k=" + std::to_string(cell.lg_k) + " n=" + std::to_string(n);
   // small-range cells: the error is a rare collision event; the per-trial window replaces bias/spread
-  const CellResult R = check_cell(tr, n, published_rse(cell.fam == F_CPC_UNION, cell.lg_k), fam, ctx, !small, true);
+  const CellResult R = check_cell(tr, n, published_rse(cell.fam >= F_CPC_UNION, cell.lg_k), fam, ctx, !small, true);
   if (cell.fam == F_CPC) { check_cell(icon, n, published_rse(true, cell.lg_k), "cpc_icon", ctx + " (icon estimate/bounds of an unmerged sketch)", !small, true); count("mc_icon_cells"); }
   count("mc_cells");
   count("mc_trials", cell.trials);
